@@ -193,7 +193,7 @@ func (g *guard) run(method string, a, b value.Value, fn func()) interface{} {
 	c := g.m.c
 	c.Count("guard_calls_looked_at", 1)
 	var looks []map[string]interface{}
-	conclusive := false
+	conclusive, deadlocked := false, false
 	var frames []string
 	var lastText string
 	for round := 0; round < guardRounds && !conclusive; round++ {
@@ -213,6 +213,18 @@ func (g *guard) run(method string, a, b value.Value, fn func()) interface{} {
 			"innermost_golib_frame_first_dump": first(fr0), "innermost_golib_frame_second_dump": first(fr1), "user_cpu_between_dumps_ms": cpu.Milliseconds()})
 		if busy(st0) && busy(st1) && len(fr0) > 0 && len(fr1) > 0 && cpu >= guardMinCPU {
 			conclusive = true
+		}
+		// the other way of never returning: parked on a mutex inside golib, in the same frames
+		// in both dumps, while no goroutine of the process is executing golib code (the values
+		// of a case are touched by its own calls only, golib never hands a held lock back to
+		// its caller, so nobody is left who could release it). Added after seeded change
+		// C20r7-3 (a map compared with itself walks its entries under its own lock and looks
+		// each key up through a method that takes that lock again).
+		parked := func(s string) bool {
+			return strings.HasPrefix(s, "sync.Mutex.Lock") || strings.HasPrefix(s, "sync.RWMutex") || strings.HasPrefix(s, "semacquire")
+		}
+		if parked(st0) && parked(st1) && len(fr0) > 0 && strings.Join(fr0, "|") == strings.Join(fr1, "|") && !othersRunGolib(g.gid) {
+			conclusive, deadlocked = true, true
 		}
 		frames, lastText = fr1, text
 	}
@@ -246,7 +258,11 @@ func (g *guard) run(method string, a, b value.Value, fn func()) interface{} {
 	if a == b {
 		obj = "the SAME object on both sides"
 	}
-	if conclusive {
+	if conclusive && deadlocked {
+		c.Fail("totality-"+method+"/"+types+"/"+shape+":never-returns",
+			fmt.Sprintf("%s.%s(%s) with %s does not return: its goroutine is parked on a mutex in %s (same frames in two dumps %s apart) and no other goroutine is executing golib code that could release it; receiver=%v argument=%v",
+				na, method, nb, obj, first(frames), guardGap, wit["receiver"], wit["argument"]), wit)
+	} else if conclusive {
 		c.Fail("totality-"+method+"/"+types+"/"+shape+":never-returns",
 			fmt.Sprintf("%s.%s(%s) with %s does not return: in %d pairs of goroutine dumps %s apart the call is running in %s and the process burns CPU; receiver=%v argument=%v",
 				na, method, nb, obj, len(looks), guardGap, first(frames), wit["receiver"], wit["argument"]), wit)
@@ -257,6 +273,30 @@ func (g *guard) run(method string, a, b value.Value, fn func()) interface{} {
 	c.SetAdd("comparison_classes_skipped_after_never_returns", fmt.Sprintf("%s×%s same-object=%v", na, nb, a == b))
 	g.startHelper()
 	panic(abortCase{})
+}
+
+// othersRunGolib: is any goroutine other than gid inside golib frames and not itself parked on a
+// mutex? (A goroutine abandoned by an earlier verdict may still be spinning or parked there.)
+func othersRunGolib(gid string) bool {
+	buf := make([]byte, 4<<20)
+	buf = buf[:runtime.Stack(buf, true)]
+	for _, blk := range strings.Split(string(buf), "\n\n") {
+		if !strings.HasPrefix(blk, "goroutine ") || strings.HasPrefix(blk, "goroutine "+gid+" [") {
+			continue
+		}
+		if !strings.Contains(blk, "\ngithub.com/whatap/golib/") {
+			continue
+		}
+		head := blk
+		if k := strings.Index(head, "\n"); k > 0 {
+			head = head[:k]
+		}
+		if strings.Contains(head, "[sync.Mutex.Lock") || strings.Contains(head, "[sync.RWMutex") || strings.Contains(head, "[semacquire") {
+			continue
+		}
+		return true
+	}
+	return false
 }
 
 func first(s []string) string {
